@@ -72,7 +72,7 @@ class SliceCoords(Task):
                 return
         v = out.value
         ok = isinstance(v, tuple) and len(v) == 4
-        ctx.oblige("post.returns-4-tuple", ok, "P")
+        ctx.structure("post.returns-4-tuple", ok)
         if not ok:
             return
         others = [d for d in range(3) if d != cn]
